@@ -34,6 +34,9 @@ def length_options(size, tier="quick"):
         "upper-only": [[None, size + 1, False]],
         "two-items": [[1, 2, False], [size, size + 1, False]],
         "exact-shorter": [[size - 1, size - 1, True]],
+        # an upper limit of 0 is a limit like any other (only the empty cell has that length)
+        "zero-or-size": [[0, 0, True], [size, size, True]],
+        "up-to-zero": [[None, 0, False]],
     }
     if tier == "thorough":
         options.update({
@@ -140,34 +143,37 @@ def judge(case, part):
         if first is not None and again != first:
             part.validated += 1
             part.fail(tag % "verdict-changes-when-the-cell-is-validated-again", {"decl": case["decl"], "cells": [cell, cell]}, first, again)
-    # the same cells through Cid rows + Reader.rows() in 'yield' mode: same verdicts, and the message names the field
+    # the same cells through Cid rows + Reader.rows() in 'yield' mode: same verdicts, and the message names the field;
+    # once with the allowed-characters row before the field rows and once behind them (data format rows may come anywhere after Format)
     if decl["fmt"] in ("delimited", "fixed"):
         import cutplace
 
-        try:
-            # in the CID the allowed range is written with quoted characters where its limits are letters or digits
-            rows = harness.cid_rows(decl["preset"], [decl], allowed=decl.get("allowed"), line_delimiter="lf", allowed_quoted=True)
-            cid = harness.make_cid(rows)
-            text, usable = c02.data_text(decl, [c for c in case["cells"] if not any(ch in c for ch in "\x0b\x0c\x1c\x1d\x1e\x85\u2028\u2029\x00")])
-            events = list(cutplace.rows(cid, harness.NamedStringIO(text, "guards.txt"), on_error="yield"))
-        except Exception as error:
-            part.fail(tag % ("cid-path-raised-" + type(error).__name__), case, "rows readable", repr(error))
-            return
-        part.transitions += 1 + len(usable)
-        if len(events) != len(usable):
-            part.fail(tag % "cid-path-row-count", case, len(usable), len(events))
-            return
-        for cell, event in zip(usable, events):
-            expected, _ = fieldmodel.validate(decl, cell.ljust(decl["width"]) if decl["fmt"] == "fixed" else cell)
-            if expected is None:
-                continue
-            part.validated += 1
-            observed = "reject" if isinstance(event, errors.DataError) else "accept"
-            narrowed = {"decl": case["decl"], "cells": [cell], "path": "cid"}
-            if observed != expected:
-                part.fail(tag % ("cid-path expected=%s observed=%s" % (expected, observed)), narrowed, expected, str(event))
-            elif observed == "reject" and ("'%s'" % decl["name"]) not in str(event):
-                part.fail(tag % "cid-path error does not name the field", narrowed, decl["name"], str(event))
+        for allowed_after_fields in ((False, True) if decl.get("allowed") else (False,)):
+            where = "cid-path" + (":property-after-fields" if allowed_after_fields else "")
+            try:
+                # in the CID the allowed range is written with quoted characters where its limits are letters or digits
+                rows = harness.cid_rows(decl["preset"], [decl], allowed=decl.get("allowed"), line_delimiter="lf", allowed_quoted=True, allowed_after_fields=allowed_after_fields)
+                cid = harness.make_cid(rows)
+                text, usable = c02.data_text(decl, [c for c in case["cells"] if not any(ch in c for ch in "\x0b\x0c\x1c\x1d\x1e\x85\u2028\u2029\x00")])
+                events = list(cutplace.rows(cid, harness.NamedStringIO(text, "guards.txt"), on_error="yield"))
+            except Exception as error:
+                part.fail(tag % ("%s-raised-%s" % (where, type(error).__name__)), case, "rows readable", repr(error))
+                return
+            part.transitions += 1 + len(usable)
+            if len(events) != len(usable):
+                part.fail(tag % (where + "-row-count"), case, len(usable), len(events))
+                return
+            for cell, event in zip(usable, events):
+                expected, _ = fieldmodel.validate(decl, cell.ljust(decl["width"]) if decl["fmt"] == "fixed" else cell)
+                if expected is None:
+                    continue
+                part.validated += 1
+                observed = "reject" if isinstance(event, errors.DataError) else "accept"
+                narrowed = {"decl": case["decl"], "cells": [cell], "path": where}
+                if observed != expected:
+                    part.fail(tag % ("%s expected=%s observed=%s" % (where, expected, observed)), narrowed, expected, str(event))
+                elif observed == "reject" and ("'%s'" % decl["name"]) not in str(event):
+                    part.fail(tag % (where + " error does not name the field"), narrowed, decl["name"], str(event))
 
 
 def all_cases(tier="quick"):
@@ -185,6 +191,8 @@ def all_cases(tier="quick"):
                         continue  # a Constant's length must admit its value (structural rule, C09)
                     if field_type == "Constant" and empty:
                         continue  # a non-empty Constant cannot be marked as possibly empty (C09)
+                    if field_type == "Integer" and length_name in ("zero-or-size", "up-to-zero"):
+                        continue  # an Integer length admitting 0 characters is refused when the field is declared
                     for allowed_name, allowed in allowed_options(code_range, fixed).items():
                         decl = {"type": field_type, "preset": preset, "empty": empty, "rule": rule}
                         widths = [None]
